@@ -35,6 +35,9 @@ uint8_t  nondet_u8(void)  { return (uint8_t)  draw(8); }
 uint16_t nondet_u16(void) { return (uint16_t) draw(16); }
 uint32_t nondet_u32(void) { return (uint32_t) draw(32); }
 uint64_t nondet_u64(void) { return (uint64_t) draw(64); }
+#ifndef HAVE_CTORS
+void verif_strlen_hint(uint8_t * p, uint32_t len) { (void) p; (void) len; }
+#endif
 void verif_observe(uint64_t v) { obs = (obs ^ v) * 1099511628211ULL + 0x9e37; }
 void verif_witness(void) { reached = 1; if (mode_replay) { printf("REPLAY: harness completed, no assertion violated\n"); fflush(stdout); _exit(0); } longjmp(jb, 3); }
 void __CPROVER_assume(_Bool c) { if (!c) { if (mode_replay) { printf("REPLAY: assumption false (infeasible natively)\n"); fflush(stdout); _exit(4); } longjmp(jb, 1); } }
